@@ -42,7 +42,7 @@ def analyse(tm):
         while work:
             cls = work.pop(0)
             if cls is None:
-                vs = tm.variants(p)
+                vs = tm.variants_for_decode(p)
             else:
                 vs = arm_class_variants(tm, p, cls)
             batch = []
@@ -136,4 +136,27 @@ def reach_obligations(ck, rule, tm, want_root, label):
             else:
                 ok, why = False, "entry written without a trampoline on this path"
             ck.ob(rule, key + "/dest", tm.target, ok, "entry patch decodes to %s; %s" % (mn, why), where(r.ev))
+    return n
+
+
+def order_obligations(ck, rule, tm, label="trampoline-before-entry"):
+    """On every path of every install root, each write into the installation's trampoline precedes the write of the function
+    entry: from the moment the entry branches to the trampoline any thread (or the installer itself, when it fakes a function
+    it calls) may arrive there, so the trampoline must already be complete. Trace order = program order on the path."""
+    n = 0
+    for p, func, repl, boolval in roots_and_roles(tm):
+        rn = short(p)
+        for v in tm.variants(p):
+            cw = classify_writes(v, func)
+            ent = [c for c in cw if c[1] == "entry"]
+            tr = [c for c in cw if c[1] == "trampoline"]
+            if not ent or not tr:
+                continue
+            n += 1
+            first_entry = min(c[0].idx for c in ent)
+            late = [c for c in tr if c[0].idx > first_entry]
+            ck.ob(rule, "%s/%s" % (rn, label), tm.target, not late,
+                  "%d trampoline write(s), %d of them after the entry was already redirected%s" % (
+                      len(tr), len(late), "" if not late else ": a call arriving in between executes an unwritten (zero-filled) trampoline"),
+                  where(late[0][0]) if late else where(ent[0][0]))
     return n
